@@ -24,7 +24,7 @@ backend: sat
 #include "array.h"
 #include "src/array.c"
 
-#define DONE_PRE (ARRAY_VALID(self) && (vg_k >= (size_t) self->len || VELEM_OR_NULL((velem_t) self->items[vg_k])) && \
+#define DONE_PRE (ARRAY_VALID_W(self) && (vg_k >= (size_t) self->len || VELEM_OR_NULL((velem_t) self->items[vg_k])) && \
                   SNAP_ITEM(self, vg_k, vg_old_k) && vg_del_cnt == 0)
 static spif_bool_t spif_array_done(spif_array_t self)
 __CPROVER_requires(DONE_PRE)
